@@ -31,6 +31,7 @@ struct SrcBuilder<'a> {
     reduce_fn_prefix: String,
     action_table_name: String,
     goto_table_name: String,
+    parse_fn_type_param_name: String,
 
     node_to_terminal_method_names: HashMap<DollarlessTerminalName, String>,
 }
@@ -53,6 +54,10 @@ impl SrcBuilder<'_> {
         let reduce_fn_prefix = create_unique_identifier("reduce", used_identifiers);
         let action_table_name = create_unique_identifier("ACTION_TABLE", used_identifiers);
         let goto_table_name = create_unique_identifier("GOTO_TABLE", used_identifiers);
+        // The type parameter of `parse` must not shadow a user-defined type
+        // (e.g., a start symbol or a terminal enum named `S`),
+        // since `parse` refers to those types in its signature and body.
+        let parse_fn_type_param_name = create_unique_identifier("S", used_identifiers);
         #[cfg(feature = "verif")]
         crate::verif::record(|| {
             crate::verif::Event::FreshNames(vec![
@@ -100,6 +105,7 @@ impl SrcBuilder<'_> {
             reduce_fn_prefix,
             action_table_name,
             goto_table_name,
+            parse_fn_type_param_name,
             node_to_terminal_method_names,
         }
     }
@@ -125,6 +131,7 @@ impl SrcBuilder<'_> {
             reduce_fn_prefix: _,
             action_table_name,
             goto_table_name,
+            parse_fn_type_param_name,
             ..
         } = self;
 
@@ -184,8 +191,8 @@ impl SrcBuilder<'_> {
 
 /// If the parser encounters an unexpected token `t`, it will return `Err(Some(t))`.
 /// If the parser encounters an unexpected end of input, it will return `Err(None)`.
-pub fn parse<S>(src: S) -> Result<{start_type_name}, Option<{terminal_enum_name}>>
-where S: IntoIterator<Item = {terminal_enum_name}> {{
+pub fn parse<{parse_fn_type_param_name}>(src: {parse_fn_type_param_name}) -> Result<{start_type_name}, Option<{terminal_enum_name}>>
+where {parse_fn_type_param_name}: IntoIterator<Item = {terminal_enum_name}> {{
     let mut quasiterminals = src.into_iter()
         .map({quasiterminal_enum_name}::Terminal)
         .chain(std::iter::once({quasiterminal_enum_name}::{eof_variant_name}))
